@@ -221,6 +221,11 @@ class Ctx:
                     src = os.path.join(root, fn)
                     rel = os.path.relpath(src, OVERLAY_SRC)
                     rep[os.path.join(REPO, rel)] = src
+                    # the estargz module cannot import the root module's packages: give it its
+                    # own copy of the dependency-free helper package
+                    # (import path github.com/containerd/stargz-snapshotter/estargz/internal/verifutil)
+                    if rel.startswith(os.path.join("internal", "verifutil") + os.sep):
+                        rep[os.path.join(REPO, "estargz", rel)] = src
         path = os.path.join(self.workdir, "overlay.json")
         with open(path, "w") as f:
             json.dump({"Replace": rep}, f, indent=1)
